@@ -86,6 +86,9 @@ func (s Range) append(nums []uint32) (out []uint32, ok bool) {
 	}
 	for n := s.Start; n <= s.Stop; n++ {
 		nums = append(nums, n)
+		if n == s.Stop {
+			break // n++ would wrap around when Stop is the maximum uint32
+		}
 	}
 	return nums, true
 }
